@@ -9,7 +9,7 @@ from typing import Dict, Any
 from dotenv import load_dotenv
 from .codes import (
     Toric2DCode, Planar2DCode, RotatedPlanar2DCode,
-    Toric3DCode, RotatedPlanar3DCode, RotatedToric3DCode,
+    Toric3DCode, Planar3DCode, RotatedPlanar3DCode, RotatedToric3DCode,
     Color666PlanarCode, Color666ToricCode, Color488Code,
     Color3DCode, RhombicToricCode, RhombicPlanarCode,
     XCubeCode, HollowPlanar3DCode, HollowRhombicCode
@@ -61,7 +61,7 @@ CODES = {
     'Color488Code': Color488Code,
     'Color3DCode': Color3DCode,
     'Toric3DCode': Toric3DCode,
-    'Planar3DCode': RotatedPlanar3DCode,
+    'Planar3DCode': Planar3DCode,
     'RotatedPlanar3DCode': RotatedPlanar3DCode,
     'RotatedToric3DCode': RotatedToric3DCode,
     'RhombicToricCode': RhombicToricCode,
